@@ -3,10 +3,10 @@
 # Each lane works in its own copy of /verif (/var/tmp/vcopy-<k>, with its own VERIF_CACHE so the mutant lock
 # and the regenerated Lean files of one lane cannot disturb another or the real /verif), then the lane
 # results are merged into /verif/seeded/RESULTS.json.  Copies and caches are removed afterwards.
-K=${1:-6}
+K=${1:-6}; shift 2>/dev/null
 V=$(cd "$(dirname "$0")/.." && pwd)
 cd "$V" || exit 2
-names=$(ls -d seeded/*/ | xargs -n1 basename)
+names="$*"; [ -n "$names" ] || names=$(ls -d seeded/*/ | xargs -n1 basename)   # names or staging dirs (/tmp/seed5-C01-out/1)
 i=0
 for k in $(seq 1 $K); do : > /var/tmp/seedlane-$k.txt; done
 for n in $names; do k=$(( i % K + 1 )); echo "$n" >> /var/tmp/seedlane-$k.txt; i=$((i+1)); done
@@ -23,15 +23,17 @@ python3 - "$K" "$V" <<'E'
 import json, sys
 K, V = int(sys.argv[1]), sys.argv[2]
 res = json.load(open(f"{V}/seeded/RESULTS.json"))
+base = dict(res)
 for k in range(1, K + 1):
     lane = json.load(open(f"/var/tmp/vcopy-{k}/seeded/RESULTS.json"))
-    for n in open(f"/var/tmp/seedlane-{k}.txt").read().split():
-        if n in lane: res[n] = lane[n]
+    for n, v in lane.items():               # a lane starts from a copy of our file and rewrites only its own entries
+        if base.get(n) != v: res[n] = v
 json.dump(res, open(f"{V}/seeded/RESULTS.json", "w"), indent=1, sort_keys=True)
 import collections
 print(collections.Counter(v["result"] for v in res.values()))
 for n, v in sorted(res.items()):
     if v["result"] != "caught:monitor": print(n, v["result"])
+print("changed:", sorted(n for n in res if base.get(n) != res[n]))
 E
 for k in $(seq 1 $K); do rm -rf /var/tmp/vcopy-$k /var/tmp/uvverif-lane$k /var/tmp/seedlane-$k.txt; done
 git -C /repo worktree prune
